@@ -504,10 +504,6 @@ func fail(a ...any) {
 }
 
 func main() {
-	if len(os.Args) > 1 && os.Args[1] == "replicator" {
-		runReplicator(os.Args[2:])
-		return
-	}
 	if len(os.Args) != 6 || os.Args[1] != "replay" {
 		fail("usage: crdt replay <behaviours.ndjson> <outdir> <nflavours> <laws|codec|steps>")
 	}
